@@ -120,6 +120,26 @@ for pid, title in [("C16", "names and metadata (WalkAtomic, WalkPrefix, QidIdent
         "TLA+/TLC model checking + tour/simulation replay on real Ufs with twin-tree comparison + TLC trace validation of the twin log",
         "ufstree", "DESIGN.md 4.6, 6 " + pid + ", docs/ufstree.md"))
 CHECKS += [
+    chk("C12", "model_checking",
+        "Nego.tla models Tversion (min, refusal below IOHDRSZ, dialect only if both asked), later replies packed into fresh or recycled "
+        "reply buffers, and announced frame sizes; FrameWithinMsize/MsizeOnlyShrinks/DialectNeedsBoth are model-checked. The grid of server "
+        "msize x client msize (24..2^32-1 incl. equal, +-1) x server dialect x version string is executed on the real server; every later "
+        "reply frame (large Rstat, 16-qid Rwalk, long Rerror, reads up to the limit) and every announced size 0..2^32-1 is one line that TLC "
+        "validates against Nego (NegoTrace); the client's Connect is run against a scripted peer and validated the same way.",
+        "Trusted base: TLC, harness/wire (dialect of Rerror/Rstat is told by strict decoding in both dialects). Sizes >= 2^31 are clamped in "
+        "the TLA+ trace.",
+        "TLA+/TLC model checking + grid execution on the real server/client + TLC trace validation of every observed frame",
+        "srv-family", "DESIGN.md 6 C12"),
+    chk("C06", "exploration",
+        "Srv9P with an unconstrained client is model-checked for NoCrash (the crash sites the model knows are unreachable); every edge of the "
+        "reference machine FidRef (incl. NOFID, stale and reused fids, counts up to 2^32-1) is executed on the real server; every Wire9P "
+        "mutation vector is sent as a frame, plus seeded adversarial sessions (every message type with boundary values, names with '/', "
+        "'..', empty and long names, msize from 24), byte-mutated sessions and random bytes, against the scripted implementation and the "
+        "Unix file server; after each case a fresh connection and a bystander connection must still be served.",
+        "Trusted base: process-level observation (a panic kills the test binary; the driver attributes it to the case in progress). The "
+        "generation of hostile values is seeded Go code, not TLA+.",
+        "TLC model checking of NoCrash + spec-derived hostile inputs (FidRef tour, Wire9P mutation vectors) + seeded adversarial sessions "
+        "executed on the real server with crash/liveness/bystander oracle", "srv-family", "DESIGN.md 6 C06"),
     chk("C20", "model_checking",
         "Logger.tla (ring, index, buffered channel; the three doLog loops transcribed literally) exhaustively checked for capacities "
         "1..3 (thorough 1..4), <=6/7 Log calls, 2x2 owners/types incl. liveness under WF(Drain) and deadlock; every transition of the "
